@@ -85,6 +85,16 @@ func (t *Tape) ChooseSched(n int) int {
 	return int(t.next(true) % uint32(n))
 }
 
+// ChooseSchedX is ChooseSched plus the unused part of the same cell (0 for the default cell): a second, rarer
+// decision that rides on a scheduling decision without lengthening the tape.
+func (t *Tape) ChooseSchedX(n int) (int, uint32) {
+	if n <= 1 {
+		return 0, 0
+	}
+	v := t.next(true)
+	return int(v % uint32(n)), v / uint32(n)
+}
+
 // Raw returns the next cell unreduced (16 bits of entropy in search mode).
 func (t *Tape) Raw() uint32 { return t.next(false) }
 
